@@ -133,6 +133,26 @@ def gen_cases(ctx):
         d = DIM[fam(el)]
         cases.append({"kind": "sequence", "elem": el, "verts": verts, "poly": star_polygon(rng, rng.random() < 0.5), "h": 1.5 if d == 2 else 2.0, "ext": 1.5, "layers": 1,
                       "seed": rng.randint(0, 10**6), "field": field(rng, d, deg), "iterative": it, "steps": steps(d)})
+    # distorted quadrangles embedded in 3-D (dim != inDim): rotation about a non-z axis / reflection through a skew plane
+    def embed_motions():
+        return [{"t": "rotate", "theta": rnd(rng, 20, 160), "center": [rnd(rng, -1, 1), rnd(rng, -1, 1), 0.0], "dir": [rnd(rng, 0.3, 1), rnd(rng, 0.3, 1), rnd(rng, -0.5, 0.5)]},
+                {"t": "symmetry", "point": [rnd(rng, -1, 1), rnd(rng, -1, 1), rnd(rng, -1, 1)], "n": [1.0, rnd(rng, 0.3, 1), rnd(rng, 0.3, 1)]}]
+    embs = [("QUAD4", gen, "general", True, [0]), ("QUAD9", gen, "general", True, [1])]
+    if thorough:
+        embs += [("QUAD8", gen, "general", True, [0, 1]), ("QUAD4", par, "parallelogram", False, [0, 1]), ("QUAD9", gen, "general", True, [0]), ("TRI6", tri, "affine", False, [0, 1])]
+    for el, verts, shape, it, which in embs:
+        em = embed_motions()
+        cases.append({"kind": "locate_single", "elem": el, "verts": verts, "shape": shape, "mirror": None, "seed": rng.randint(0, 10**6),
+                      "field": field(rng, 3, 1 if it else ORDER[el]), "iterative": it, "sizes": [1, 2, 3, 50], "embed": [em[k] for k in which]})
+    # scaled twins: the same scenario in another unit of length
+    scl = [("TRI3", None, 1, False), ("QUAD4", None, 1, True), ("TETRA4", None, 1, False), ("HEXA8", ghex, 1, True)]
+    if thorough:
+        scl += [("TRI6", None, 2, False), ("QUAD9", gen, 1, True), ("TETRA10", None, 2, False), ("PRISM6", None, 1, False), ("HEXA8", None, 1, True), ("PRISM15", pri, 2, False)]
+    for el, verts, deg, it in scl:
+        d = DIM[fam(el)]
+        cases.append({"kind": "scaled", "elem": el, "verts": verts, "poly": star_polygon(rng, rng.random() < 0.5), "h": 1.6 if d == 2 else 2.2, "ext": 1.5, "layers": 1,
+                      "seed": rng.randint(0, 10**6), "field": field(rng, d, deg), "iterative": it, "scales": [1e-9, 1e-6, 1e-3, 1e3],
+                      "motions": ([] if not thorough else motions(rng, d)[:2])})
     # meshes whose groups do not use the coordinate rows in order (orphan rows, permuted numbering, two main groups)
     ren = [("QUAD4", 1, True, ["orphans", "mixed"]), ("TETRA4", 1, False, ["orphans"])]
     if thorough:
@@ -245,7 +265,7 @@ def run(ctx):
     proofs = {}
     if dump is not None:
         ctx.copy_props("C08/C08_defs.v", "C08/C08_faces.v", "C08/C08_measure.v", "C08/C08_subparam.v", "C08/C08_invmap.v", "C08/C08_pointin.v",
-                       "C08/C08_pointin2d.v", "C08/C08_eval.v", "C08/C08_conform.v", "C08/C08_locate.v", "C08/C08_locate2d.v", "C08/C08_evalpoly.v", "C08/C08_cur_invmap.v", "C08/C08_cur_pointin.v", "C08/C08_measure_thorough.v", "C08/C08_moments_thorough.v")
+                       "C08/C08_pointin2d.v", "C08/C08_eval.v", "C08/C08_conform.v", "C08/C08_locate.v", "C08/C08_locate2d.v", "C08/C08_evalpoly.v", "C08/C08_scale.v", "C08/C08_cur_invmap.v", "C08/C08_cur_pointin.v", "C08/C08_measure_thorough.v", "C08/C08_moments_thorough.v")
         r0 = ctx.coq(["C08_defs.v", "Gen_Elems.v", "Gen_Gauss.v", "Gen_Faces.v"], timeout=300, count=False)
         if not r0.ok:
             ctx.obligation("generated files compile", False, r0.log[-1500:])
@@ -262,11 +282,11 @@ def run(ctx):
                     ctx.log("  %s %s %.1fs" % (f, "ok" if proofs[f].ok else "FAILED", proofs[f].files[-1][2] if proofs[f].files else 0))
             # statements about the source AS FOUND (C08_cur_*): only when the corresponding reader recognised the
             # source (otherwise the `translate:<reader>` violation already says that the property is not shown)
-            chain_a = [("C08_faces.v", None), ("C08_measure.v", "C08_faces.v"), ("C08_subparam.v", "C08_measure.v")]
-            chain_b = [("C08_invmap.v", None), ("C08_eval.v", "C08_invmap.v"), ("C08_evalpoly.v", "C08_eval.v")] + \
-                      ([("C08_cur_invmap.v", "C08_invmap.v")] if evr is not None else []) + \
-                      [("C08_pointin.v", None), ("C08_locate.v", "C08_pointin.v")] + ([("C08_cur_pointin.v", "C08_locate.v")] if pir is not None else []) + \
-                      [("C08_pointin2d.v", "C08_pointin.v"), ("C08_locate2d.v", "C08_pointin2d.v"), ("C08_conform.v", None)]
+            chain_a = [("C08_faces.v", None), ("C08_measure.v", "C08_faces.v"), ("C08_scale.v", "C08_measure.v"), ("C08_subparam.v", "C08_measure.v")]
+            chain_b = [("C08_pointin.v", None), ("C08_locate.v", "C08_pointin.v")] + ([("C08_cur_pointin.v", "C08_locate.v")] if pir is not None else []) + \
+                      [("C08_pointin2d.v", "C08_pointin.v"), ("C08_locate2d.v", "C08_pointin2d.v"), ("C08_conform.v", None),
+                       ("C08_invmap.v", None), ("C08_eval.v", "C08_invmap.v"), ("C08_evalpoly.v", "C08_eval.v")] + \
+                      ([("C08_cur_invmap.v", "C08_invmap.v")] if evr is not None else [])
             chains = [chain_a, chain_b]
             with ThreadPoolExecutor(max_workers=2) as ex:
                 list(ex.map(chain, chains))
@@ -317,7 +337,7 @@ def run(ctx):
         ctx.note_case(r["cls"])
     ctx.cov["corr_checks"] = len(results)
     ctx.cov["corr_cases"] = len(cases)
-    ctx.cov["case_kinds"] = {k: sum(1 for c in cases if c["kind"] == k) for k in ("geom", "locate_gmsh", "locate_single", "outside", "purity", "deformed", "faces", "sequence", "renumber", "order")}
+    ctx.cov["case_kinds"] = {k: sum(1 for c in cases if c["kind"] == k) for k in ("geom", "locate_gmsh", "locate_single", "outside", "purity", "deformed", "faces", "sequence", "renumber", "order", "scaled")}
     ctx.cov["element_types_sampled"] = sorted(set(c["elem"] for c in cases))
     ctx.obligation("corr:geometry/location cases", not fails, "%d of %d checks fail; keys %s" % (len(fails), len(results), sorted(by_key)[:8]))
     if results:
